@@ -12,7 +12,8 @@ RULE = (
     "sharing a target, a gate targeting a gate, targets whose name is a prefix of a sibling's; default-open and "
     "closed-by-default; flat, nested one level, gate-driven loops, and feedback programs in which a branch output "
     "goes back into a gate that cannot decide again - it waits for a one-shot signal or sits under an outer gate that "
-    "re-decides against it), every selector swept over every table index "
+    "re-decides against it, programs entered at plain nodes with the gates upstream cut off, a target shared by a "
+    "router and a closed gate that cannot decide yet), every selector swept over every table index "
     "(others random), on both runners with sampled completion orders. Trace rules on every execution: R1 a gated node "
     "(or nested graph node) starts only if some controlling gate's latest decision in that run names it or an "
     "undecided default-open gate allows it; R2 no step holds a gate and one of its targets; decisions taken from gate "
@@ -120,6 +121,43 @@ def one(ctx, spec, inputs, runner, sched, label, with_proc=False, loop_ref=None,
     return o
 
 
+def entry_variant(ctx, spec, base):
+    """The same gated program entered at 1-2 plain nodes (with_entrypoint): gates upstream of the entry points are cut
+    off and never decide, so their closed-by-default targets must stay closed and R1 holds as on the full graph."""
+    from hgmon.build import build_program
+
+    rng = ctx.rng
+    fnodes = [ns["name"] for ns in spec["nodes"] if ns["k"] == "fn"]
+    if not fnodes:
+        return
+    s = copy.deepcopy(spec)
+    s["entry"] = rng.sample(fnodes, rng.randint(1, min(2, len(fnodes))))
+    s["deterministic"] = False  # only the trace rules apply
+    try:
+        rt.reset_program()
+        contract = build_program(s).graph.inputs
+    except Exception:  # noqa: BLE001 - a configuration the API rejects is not a configuration
+        ctx.obs["entry_config_rejected"] += 1
+        return
+    provided = {}
+    for r_ in list(contract.required) + [p for ps in list(contract.entrypoints.values())[:1] for p in ps]:
+        provided[r_] = base.get(r_, f"caller:{r_}")
+    for o_ in contract.optional:
+        if o_ in base:
+            provided[o_] = base[o_]
+    for runner in ("sync", "async"):
+        o = core.execute(core.with_async(s, runner == "async", rng), provided, runner, sched=rt.Sched(default="rand", rng=rng) if runner == "async" else None, max_iterations=60)
+        ctx.obs["entry_variant_runs"] += 1
+        case = {"spec": s, "inputs": provided, "runner": runner, "variant": "entry-points"}
+        if o.deadlock or o.inconclusive or o.exc is not None:
+            continue  # rejected / unsatisfiable configurations are C08's and C16's business
+        bad, n_ = monitors.gate_rules(o.rec, s)
+        for k, v in n_.items():
+            ctx.obs[k] += v
+        for key, what in bad[:2]:
+            ctx.violation(key, f"entry-points {s['entry']} ({runner}): {what}", case)
+
+
 def run(ctx):
     n = 60 if ctx.tier == "quick" else 1300
     if ctx.replay:
@@ -138,6 +176,22 @@ def run(ctx):
             for runner in ("sync", "async"):
                 one(ctx, spec, base, runner, rt.Sched(default="rand", rng=rng) if runner == "async" else None, f"loop-{runner}", with_proc=rng.random() < 0.5, loop_ref=loop_ref)
             ctx.case({"loop": t["template"], "in": base}, True)
+            continue
+        if r < 0.22:
+            # a target shared by an entry router and a closed gate that cannot decide before the target ran
+            spec = gen.gen_late_closed_gate(rng)
+            for sv in range(spec["table_len"]):
+                inputs = {"s": sv, "x": "run:x"}
+                for runner in ("sync", "async"):
+                    o = one(ctx, spec, inputs, runner, rt.Sched(default="rand", rng=rng) if runner == "async" else None, f"late-closed-{runner}", max_iterations=24)
+                    ctx.obs["late_closed_runs"] += 1
+                    if o is not None and o.exc is None and not o.deadlock and not o.inconclusive:
+                        router = next(ns for ns in spec["nodes"] if ns["name"] == "router")
+                        chosen = monitors.decision_token(router, router["table"][sv % len(router["table"])])
+                        ran = {f.rsplit("/", 1)[-1] for f in o.rec.invocations()}
+                        if isinstance(chosen, str) and chosen != "END" and chosen not in ran:
+                            ctx.violation("C03:selected-branch-never-ran", f"late-closed-{runner}: the router decided {chosen!r}; its function never ran although its inputs are plain graph inputs (another, closed gate of that target has not decided yet); executed {sorted(ran)}", {"spec": spec, "inputs": inputs, "runner": runner, "variant": "late-closed"})
+                ctx.case({"s": gen.shape_of(spec), "lc": sv}, True)
             continue
         if r < 0.3:
             spec = gen.gen_feedback_gated(rng)
@@ -164,6 +218,8 @@ def run(ctx):
                 vectors.append(d)
         for _ in range(3):
             vectors.append(gen.gated_inputs(rng, spec))
+        if "prog" not in spec["nodes"][0] and rng.random() < 0.5:
+            entry_variant(ctx, spec, rng.choice(vectors))
         seen_dec = set()
         for inputs in vectors:
             for runner in ("sync", "async"):
